@@ -95,8 +95,31 @@ func c17Err(k int, s string) error {
 		return errSafeFmt{s}
 	case 6:
 		return errSafeMsg{s}
+	case 7:
+		// an unnamed struct type that gets Error() by embedding
+		return struct{ error }{cntErr{s}}
+	case 8:
+		return errFmtSP{s}
 	}
 	panic("c17Err")
+}
+
+// errFmtSP is an error with a Format method that looks for the
+// SafePrinter behind its fmt.State and uses the safe emitters on it.
+type errFmtSP struct{ s string }
+
+func (e errFmtSP) Error() string { errCalls++; return e.s }
+func (e errFmtSP) Format(st fmt.State, verb rune) {
+	if p, ok := st.(redact.SafePrinter); ok {
+		p.SafeString("rich(")
+		p.SafeRune(redact.SafeRune(verb))
+		p.SafeString("): ")
+		p.UnsafeString(e.s)
+		p.SafeByte('!')
+		p.SafeBytes([]byte("[end]"))
+		return
+	}
+	st.Write([]byte("plain: " + e.s))
 }
 
 var c17WForms = []string{"%+w", "%[1]w", "%8w", "%-6w"}
@@ -223,7 +246,7 @@ func H_c17(p []int) {
 	}
 	wf, _ := wfls(out)
 	vAssert(wf, "C17/wf")
-	dispatched := ek <= 4 // not SafeFormatter / SafeMessager
+	dispatched := ek <= 4 || ek >= 7 // not SafeFormatter / SafeMessager
 	hookText := "H[" + "v" + "‹u›s‹x›]"
 	switch {
 	case hook == 1 && dispatched && pos != 6 && pos != 8:
@@ -271,7 +294,7 @@ func H_c17(p []int) {
 		}
 	case pos == 8:
 		vAssert(hookCalls == 0, "C17/no-dispatch-on-unexported-field")
-	case hook == 0 && dispatched && (pos == 0 || pos == 2 || pos == 3 || pos == 5) && len(preOut) == 0:
+	case hook == 0 && dispatched && ek != 8 && (pos == 0 || pos == 2 || pos == 3 || pos == 5) && len(preOut) == 0:
 		// no hook: the error renders as under the standard library (Error()
 		// wins over String(), Format() over both)
 		f := catchFmt(func() string { return fmt.Sprintf("a "+d+" b", arg) })
